@@ -227,6 +227,35 @@ def run(ctx: Ctx):
 
     _app_request(ctx, R, E)
     _routes(ctx, model, nc)
+    # a request that carries every required AVP stays deliverable when an optional AVP is
+    # malformed: the typed decoder reads every AVP value (scalar or grouped) tolerantly
+    ctx.rule("C08-R2b", "assign_attr_from_defs reads every AVP value inside try/except "
+                        "AvpDecodeError (a malformed optional AVP becomes None instead of making "
+                        "the whole request undecodable, i.e. dropped as garbage and never answered)",
+             floor=3)
+    asg = model.func("message.commands._attributes", "assign_attr_from_defs")
+    ctx.use(asg)
+    par = A.parents(asg.node)
+    k = 0
+    for n in A.walk_no_nested(asg.node):
+        if isinstance(n, ast.Attribute) and n.attr == "value" and isinstance(n.ctx, ast.Load):
+            k += 1
+            cons = f"assign_attr_from_defs:value-read#{k}"
+            ctx.inst(cons)
+            x, ok = n, False
+            while x in par:
+                px = par[x]
+                if isinstance(px, ast.Try) and any(x is b for b in px.body):
+                    for h in px.handlers:
+                        if any(E.is_sub("AvpDecodeError", t) for t in E.handler_types(h)):
+                            ok = True
+                x = px
+            if not ok:
+                ctx.fail("assign_attr_from_defs:value-read", asg.loc(n),
+                         f"`{ast.unparse(par.get(n, n))[:70]}` reads an AVP value outside try/except "
+                         f"AvpDecodeError: one malformed optional (e.g. Grouped) AVP makes "
+                         f"Message.from_bytes raise, the reader discards the frame as garbage and a "
+                         f"request that carries every required AVP is neither delivered nor answered")
     from .common_node import identity_semantics
     identity_semantics(ctx, "C08-R7")
     from . import c06
